@@ -127,7 +127,7 @@ func runC03(c *eng.Ctx) {
 }
 
 func c03Synchronizable(c *eng.Ctx, rule string, kinds map[string]int64) {
-	fn := c.MustFunc(rule,corePkg, "Entry.synchronizable")
+	fn := c.MustFunc(rule, corePkg, "Entry.synchronizable")
 	if fn == nil {
 		return
 	}
@@ -139,23 +139,28 @@ func c03Synchronizable(c *eng.Ctx, rule string, kinds map[string]int64) {
 		g := eng.Guards(r)
 		switch {
 		case eng.IsNilConst(rv):
-			ok := eng.HasAtom(g, `^\(p0 == nil\)$`, true) || eng.HasAtom(g, `^\(synchronization/core\.EntryKind\)\.synchronizable\(p0\.Kind\)$`, false)
-			c.Check(rule,"nil-result", r.Pos(), ok, "nil is returned only for a nil entry or an unsynchronizable kind", eng.AtomsText(g))
+			// (decided per way into the return, so that `a || b` forms are understood)
+			ok, _ := everyPathTo(r.Block(), 2000, func(p eng.Path) bool {
+				return pathHas(p, `^\(p0 == nil\)$`, true) || pathHas(p, `^\(synchronization/core\.EntryKind\)\.synchronizable\(p0\.Kind\)$`, false)
+			})
+			c.Check(rule, "nil-result", r.Pos(), ok, "nil is returned only for a nil entry or an unsynchronizable kind", eng.AtomsText(g))
 		case eng.Render(rv) == "p0":
 			nself++
-			ok := eng.HasAtom(g, fmt.Sprintf(`^\(p0\.Kind == %d:EntryKind\)$`, dir), false) || eng.HasAtom(g, `^\(len\(p0\.Contents\) == 0\)$`, true)
-			c.Check(rule,"self-result", r.Pos(), ok, "the entry itself is returned only if it is not a directory or has no contents (nothing to filter)", eng.AtomsText(g))
+			ok, _ := everyPathTo(r.Block(), 2000, func(p eng.Path) bool {
+				return pathHas(p, fmt.Sprintf(`^\(p0\.Kind == %d:EntryKind\)$`, dir), false) || pathHas(p, `^\(len\(p0\.Contents\) == 0\)$`, true)
+			})
+			c.Check(rule, "self-result", r.Pos(), ok, "the entry itself is returned only if it is not a directory or has no contents (nothing to filter)", eng.AtomsText(g))
 		default:
 			if a, ok := eng.Unwrap(rv).(*ssa.Alloc); ok {
 				fresh = a
-				c.Check(rule,"fresh-result", r.Pos(), true, "a filtered directory is a fresh entry")
+				c.Check(rule, "fresh-result", r.Pos(), true, "a filtered directory is a fresh entry")
 			} else {
-				c.Check(rule,"other-result", r.Pos(), false, "unexpected result form", eng.Render(rv))
+				c.Check(rule, "other-result", r.Pos(), false, "unexpected result form", eng.Render(rv))
 			}
 		}
 	}
 	if fresh == nil {
-		c.Problem(rule,"synchronizable has no filtered-copy path")
+		c.Problem(rule, "synchronizable has no filtered-copy path")
 		return
 	}
 	// Children: every map update into the fresh entry's contents stores child.synchronizable() under non-nil.
@@ -171,28 +176,28 @@ func c03Synchronizable(c *eng.Ctx, rule string, kinds map[string]int64) {
 		g := eng.Guards(mu)
 		nonNil := eng.HasAtom(g, `^\(`+eng.Q(vr)+` == nil\)$`, false)
 		keyOK := eng.Render(mu.Key) == "next(range(p0.Contents))#1"
-		c.Check(rule,"child-filtered", mu.Pos(), isSyn && nonNil && keyOK, "each kept child is the non-nil synchronizable() image of the same-named child", vr)
+		c.Check(rule, "child-filtered", mu.Pos(), isSyn && nonNil && keyOK, "each kept child is the non-nil synchronizable() image of the same-named child", vr)
 	})
 	if nup != 1 {
-		c.Problem(rule,"expected one map update in synchronizable, found %d", nup)
+		c.Problem(rule, "expected one map update in synchronizable, found %d", nup)
 	}
 	// Kind table.
-	if ks := c.MustFunc(rule,corePkg, "EntryKind.synchronizable"); ks != nil {
+	if ks := c.MustFunc(rule, corePkg, "EntryKind.synchronizable"); ks != nil {
 		for _, r := range eng.Returns(ks) {
 			be, err := eng.BoolExprOf(eng.RetResults(r)[0])
 			if err != nil {
-				c.Problem(rule,"%v", err)
+				c.Problem(rule, "%v", err)
 				continue
 			}
 			a := func(k int64) string { return fmt.Sprintf("(p0 == %d:EntryKind)", k) }
 			ad, af, al := a(kinds["EntryKind_Directory"]), a(kinds["EntryKind_File"]), a(kinds["EntryKind_SymbolicLink"])
 			eq, cex, err := eng.TruthTableEqual(be, []string{ad, af, al}, func(env map[string]bool) bool { return env[ad] || env[af] || env[al] })
 			if err != nil {
-				c.Problem(rule,"%v", err)
+				c.Problem(rule, "%v", err)
 				continue
 			}
-			c.Check(rule,"kind-table", r.Pos(), eq, "a kind is synchronizable iff it is Directory, File or SymbolicLink", fmt.Sprintf("%s; counterexample %v", be, cex))
+			c.Check(rule, "kind-table", r.Pos(), eq, "a kind is synchronizable iff it is Directory, File or SymbolicLink", fmt.Sprintf("%s; counterexample %v", be, cex))
 		}
 	}
-	c.Floor(rule,5)
+	c.Floor(rule, 5)
 }
